@@ -78,7 +78,7 @@ def rebuild(root, target, changes=None, replacement=None):
         if isinstance(v, Mapping):
             items = [(k, rec(x)) for k, x in v.items()]
             if any(a[1] is not b for a, b in zip(items, v.values())):
-                return type(v)(items) if not isinstance(v, dict) else dict(items)
+                return _same_mapping_type(v, items)
             return v
         if isinstance(v, (set, frozenset)):
             return v
